@@ -116,7 +116,8 @@ theorem sort_perm {α : Type} [Inhabited α] (lt : α → α → Bool)
 
 /- Note on the totalised read `rd m i = m.getD i default` of Sort.lean: `sort_perm`/`sort_sorted` alone would also hold
    for an algorithm reading `default` out of range; that no access leaves `left … right` is `sort_frame` (via
-   `qsortF_spec`) and, with `Option`-valued reads, the heap-level `ptr_sort` ("follows no null pointer"). -/
+   `qsortF_spec`), with segment-checked `Option`-valued reads `sort_checked_reads` (PropsSort.lean, every element type and
+   comparison) and the heap-level `ptr_sort` / `ptr_sort_comparator` ("follows no null pointer"). -/
 theorem sort_sorted {α : Type} [Inhabited α] (lt : α → α → Bool)
     (hasymm : ∀ x y, lt x y = true → lt y x = false)
     (htrans : ∀ x y z, lt x y = true → lt y z = true → lt x z = true) (vs r : List α)
